@@ -409,6 +409,10 @@ def gen_lang(tier):
     for a in labs:
         for b in labs:
             yield {"g": "lang", "langs": [a, b]}
+            # the form names one of its languages as the default (settings sheet or argument): the code check is the same
+            if a != b and "default" not in (a, b):
+                yield {"g": "lang", "langs": [a, b], "dl": a, "via": "settings"}
+                yield {"g": "lang", "langs": [a, b], "dl": b, "via": "arg"}
         yield {"g": "lang", "langs": [a]}
 
 
@@ -417,7 +421,13 @@ def check_lang(case):
     row = {"type": "text", "name": "q"}
     for l in langs:
         row["label" if l == "default" else f"label::{l}"] = f"L {l}"
-    out = run_convert({"survey": [row]})
+    wb_, kw_ = {"survey": [row]}, {}
+    if case.get("dl"):
+        if case["via"] == "settings":
+            wb_["settings"] = [{"default_language": case["dl"]}]
+        else:
+            kw_["default_language"] = case["dl"]
+    out = run_convert(wb_, **kw_)
     if out.kind != "ok":
         sig = f"internal-exception:{out.exc}:{out.where}" if out.kind == "crash" else "rejected:lang"
         return {"outcome": f"lang-{out.kind}", "nt": False, "viol": [(sig, f"{langs} {out.msg[:200]}")], "tr": 1}
@@ -538,6 +548,11 @@ def gen_row(tier):
         if v.startswith("choice-"):
             # the same advisory with text cleaning switched off (row numbers are still cited)
             yield {"g": "misc", "v": v, "ctv": "no"}
+        if v.startswith("choice-nolabel"):
+            # blank rows above (kept by the spreadsheet readers): the cited rows shift by exactly that many
+            for nb in (1, 2):
+                for fmt in ("dict", "xlsx", "xls"):
+                    yield {"g": "misc", "v": v, "blank": nb, "fmt": fmt}
     # unlabeled choices in lists with repeated choice names (allowed by the setting): every unlabeled row is named
     import itertools as _it
 
@@ -611,7 +626,19 @@ def check_misc(case):
         wb["settings"] = [{"allow_choice_duplicates": "yes"}]
     if case.get("ctv"):
         wb.setdefault("settings", [{}])[0]["clean_text_values"] = case["ctv"]
-    out = run_convert(wb)
+    src, ckw = wb, {}
+    if case.get("blank"):
+        nb = case["blank"]
+        wb["choices"][0:0] = [{} for _ in range(nb)]
+        exp = collections.Counter({(k[0], k[1] + nb, *k[2:]) if k[0] == "choice-nolabel" else k: n_ for k, n_ in exp.items()})
+        if case["fmt"] != "dict":
+            from xmc import render
+
+            hs = list(dict.fromkeys(k_ for r_ in wb["choices"] for k_ in r_))
+            tabs = {"survey": [list(wb["survey"][0]), [wb["survey"][0][k_] for k_ in wb["survey"][0]]],
+                    "choices": [hs, *[[r_.get(k_) for k_ in hs] for r_ in wb["choices"]]]}
+            src, ckw = render.render({"survey": wb["survey"], "choices": [r_ for r_ in wb["choices"] if r_]}, case["fmt"], tabs)
+    out = run_convert(src, **ckw)
     if out.kind != "ok":
         sig = f"internal-exception:{out.exc}:{out.where}" if out.kind == "crash" else f"rejected:misc:{v}"
         return {"outcome": f"misc-{out.kind}", "nt": False, "viol": [(sig, out.msg[:200])], "tr": 1}
